@@ -17,18 +17,12 @@ fn get_dependencies_from_type(
                 if seen.insert(id.clone()) {
                     res.push(id.clone());
                     get_dependencies(tp, types, res, seen);
-                    for parameter in parameters {
-                        let id = parameter.id().to_string();
-                        if let Some(tp) = types.get(&id) {
-                            if seen.insert(id.clone()) {
-                                res.push(id.clone());
-                                get_dependencies(tp, types, res, seen);
-                                seen.remove(&id.clone());
-                            }
-                        }
-                    }
                     seen.remove(&id.clone());
                 }
+            }
+            // the arguments can be arbitrary type expressions (containers, other generics)
+            for parameter in parameters {
+                get_dependencies_from_type(parameter, types, res, seen);
             }
         }
         RustType::Simple { id } => {
@@ -45,10 +39,10 @@ fn get_dependencies_from_type(
                 get_dependencies_from_type(kt, types, res, seen);
                 get_dependencies_from_type(vt, types, res, seen);
             }
-            SpecialRustType::Option(inner) => {
-                get_dependencies_from_type(inner, types, res, seen);
-            }
-            SpecialRustType::Vec(inner) => {
+            SpecialRustType::Option(inner)
+            | SpecialRustType::Vec(inner)
+            | SpecialRustType::Array(inner, _)
+            | SpecialRustType::Slice(inner) => {
                 get_dependencies_from_type(inner, types, res, seen);
             }
             _ => {}
@@ -71,14 +65,14 @@ fn get_enum_dependencies(
             shared,
         } => {
             if seen.insert(shared.id.original.to_string()) {
-                res.push(shared.id.original.to_string());
                 for variant in &shared.variants {
                     match variant {
                         RustEnumVariant::Unit(_) => {}
-                        RustEnumVariant::AnonymousStruct {
-                            fields: _,
-                            shared: _,
-                        } => {}
+                        RustEnumVariant::AnonymousStruct { fields, shared: _ } => {
+                            for field in fields {
+                                get_dependencies_from_type(&field.ty, types, res, seen)
+                            }
+                        }
                         RustEnumVariant::Tuple { ty, shared: _ } => {
                             get_dependencies_from_type(ty, types, res, seen)
                         }
